@@ -1,4 +1,4 @@
-(* C12 -- Model/HybridHist.v: in the current tree (07829f6, 09176f7, b44c076) the reshuffle of a hybrid image
+(* C12 -- Model/HybridHist.v: in the current tree (07829f6, 09176f7, b44c076, ed6ec41) the reshuffle of a hybrid image
    never raises, for every history; write_fp succeeds exactly when the record() calls and the seek
    before the backup GPT accept their values ([record_ok]). *)
 From Coq Require Import ZArith List Bool Arith Lia.
@@ -55,26 +55,28 @@ Definition pst_good (st : pst) : Prop := p_ok st = true /\ hy_wf (p_hy st).
 Lemma hh_push_step_good s st e : pst_good st -> pst_good (push_step s st e).
 Proof.
   intros [Hok Hwf]. unfold push_step, push_step_gen. cbv zeta. rewrite Hok. cbn [negb orb].
+  destruct (AccountBoot.mem (fst (snd e)) (p_ents st)); [split; assumption|].
   rewrite andb_false_r.
-  set (seen := if AccountBoot.mem (fst (snd e)) (p_seen st) then p_seen st else fst (snd e) :: p_seen st).
+  set (seen := if AccountBoot.mem (fst (snd (snd e))) (p_seen st) then p_seen st
+               else fst (snd (snd e)) :: p_seen st).
   clearbody seen.
-  destruct (fst (snd (snd e)) =? 239).
+  destruct (fst (snd (snd (snd e))) =? 239).
   - destruct (p_nefi st =? 0) eqn:E0; cbn [andb].
     + destruct (ih_efi (hy_ih (p_hy st))) eqn:Ee.
-      * destruct (hh_update_efi_some (p_hy st) (rba_of s (fst (snd e))) (snd (snd (snd e)))
+      * destruct (hh_update_efi_some (p_hy st) (rba_of s (fst (snd (snd e)))) (snd (snd (snd (snd e))))
                     (lspace (bl s) * C) Hwf Ee) as (y' & Hy & Hw).
         rewrite Hy. split; [reflexivity|exact Hw].
       * destruct (p_nefi st =? 1); cbn [andb]; [|split; [reflexivity|exact Hwf]].
         destruct (ih_mac (hy_ih (p_hy st))) eqn:Em; [|split; [reflexivity|exact Hwf]].
-        destruct (hh_update_mac_some (p_hy st) (rba_of s (fst (snd e))) (snd (snd (snd e))) Hwf Em)
+        destruct (hh_update_mac_some (p_hy st) (rba_of s (fst (snd (snd e)))) (snd (snd (snd (snd e)))) Hwf Em)
           as (y' & Hy & Hw).
         rewrite Hy. split; [reflexivity|exact Hw].
     + destruct (p_nefi st =? 1); cbn [andb]; [|split; [reflexivity|exact Hwf]].
       destruct (ih_mac (hy_ih (p_hy st))) eqn:Em; [|split; [reflexivity|exact Hwf]].
-      destruct (hh_update_mac_some (p_hy st) (rba_of s (fst (snd e))) (snd (snd (snd e))) Hwf Em)
+      destruct (hh_update_mac_some (p_hy st) (rba_of s (fst (snd (snd e)))) (snd (snd (snd (snd e)))) Hwf Em)
         as (y' & Hy & Hw).
       rewrite Hy. split; [reflexivity|exact Hw].
-  - destruct ((fst (snd (snd e)) =? 0) && _); (split; [reflexivity|]); [apply hh_update_rba_wf|]; exact Hwf.
+  - destruct ((fst (snd (snd (snd e))) =? 0) && _); (split; [reflexivity|]); [apply hh_update_rba_wf|]; exact Hwf.
 Qed.
 
 Lemma hh_fold_push_good s l st : pst_good st -> pst_good (fold_left (push_step s) l st).
@@ -87,7 +89,7 @@ Qed.
 Theorem hh_push_good b y : hy_wf y -> p_ok (push b y) = true /\ hy_wf (p_hy (push b y)).
 Proof.
   intros H. unfold push, push_gen. destruct (bboot b); [|split; [reflexivity|exact H]].
-  apply (hh_fold_push_good b _ (mk_pst [] 0 y true)). split; [reflexivity|exact H].
+  apply (hh_fold_push_good b _ (mk_pst [] [] 0 y true)). split; [reflexivity|exact H].
 Qed.
 
 Lemma hh_gpt_new_parts prim mac d a b c :
